@@ -39,11 +39,13 @@ FLOORS = {
               "mon": {"findMatching": 700, "jouguet_oracle": 60, "cut_configs": 40,
                       "template.findMatching": 150},
               "cls": {"deflagration": 80, "hybrid": 50, "detonation": 80,
-                      "cut:fastestDeflag": 15, "cut:slowestDeton": 8}},
+                      "cut:fastestDeflag": 15, "cut:slowestDeton": 6,
+                      "cut:slowestDeton-below-all": 2}},
     "thorough": {"distinct_nontrivial": 10000,
                  "mon": {"findMatching": 18000, "jouguet_oracle": 1500, "cut_configs": 600},
                  "cls": {"deflagration": 2000, "hybrid": 1200, "detonation": 2000,
-                         "cut:fastestDeflag": 250, "cut:slowestDeton": 120}},
+                         "cut:fastestDeflag": 250, "cut:slowestDeton": 100,
+                         "cut:slowestDeton-below-all": 30}},
 }
 
 
@@ -357,6 +359,42 @@ def cut_workload(case, spec, rtol, atol, probe, rng, viol, classes, keys, mon, k
     which = "deton" if rng.random() < 0.35 and hyd.vJ < 0.9 else "deflag"
     phase = "L" if (which == "deton" or rng.random() < 0.6) else "H"
     lo_w = max(hyd.vMin, 1e-3) + 0.02
+    if which == "deton" and rng.random() < 0.3:
+        # the low-T range ends below the temperature of every detonation: no detonation is
+        # admissible and the documented answer of slowestDeton() is 1
+        mf = probe.matching(0.995)
+        if mf.get("none") or mf["error"] or not mf["Tm"] > Tn * 1.004:
+            classes.append("cut:below-all:no-room")
+            return {}
+        Tcut = Tn + float(rng.uniform(0.2, 0.9)) * (mf["Tm"] - Tn)
+        temps = []
+        for v in np.linspace(hyd.vJ + 0.01, 0.985, 8):
+            mm = probe.matching(float(v))
+            if not (mm.get("none") or mm["error"]):
+                temps.append((float(v), mm["Tm"]))
+        if len(temps) < 5 or any(t[1] <= Tcut for t in temps):
+            classes.append("cut:below-all:not-below-all(not judged)")
+            return {}
+        spec2 = dict(spec)
+        unit = probe.eos.s
+        spec2["rangeL"] = [1e-4 * Tn / unit, Tcut / unit]
+        p2 = HY.HydroProbe(spec2, rtol, atol)
+        mon["cut_configs"] += 1
+        sd = p2.hyd.slowestDeton()
+        out = {"which": "deton-below-all", "Tcut_over_Tn": Tcut / Tn, "slowestDeton": sd,
+               "vJ": p2.hyd.vJ}
+        if sd < 1:
+            bad = [(v, T) for v, T in temps if v >= sd]
+            viol.append({"mech": "slowestDeton-advertises-detonations-outside-tabulated-range",
+                         "msg": f"low-T range ends at {Tcut / Tn:.4f} T_n, below T- of every "
+                         f"detonation (T-(0.995)={mf['Tm'] / Tn:.4f} T_n), yet slowestDeton()="
+                         f"{sd:.6f} (vJ={p2.hyd.vJ:.6f}) instead of 1; e.g. v_w={bad[0][0]:.4f} "
+                         f"has T-={bad[0][1] / Tn:.4f} T_n on {spec}" if bad else
+                         f"slowestDeton()={sd} although no detonation is inside the range",
+                         "data": out})
+        classes.append("cut:slowestDeton-below-all")
+        keys.append(f"{key0}:cutdet-below-all:{Tcut / Tn:.6f}")
+        return out
     if which == "deflag":
         if hyd.vJ - 0.02 <= lo_w:
             classes.append("cut:window-too-narrow")
